@@ -160,7 +160,7 @@ structure BodyOK (T : String → Prop) (recs : List HRec) (o : String) (s : Stmt
   keep : ∀ r, r ∈ recs → ∀ m, footOf r m → neverWritten m s = true
   keepO : neverWritten o s = true
 
-theorem flatIdx_one (N v : Nat) (h : v < N) : flatIdx [N] [(v : Int)] = some v := by
+theorem flatIdx_singleNat (N v : Nat) (h : v < N) : flatIdx [N] [(v : Int)] = some v := by
   simp [flatIdx, h]
 
 theorem evalIs_sym (σ : St R) (o : String) (v : Int) (h : σ.iv.get o = some v) :
@@ -236,7 +236,7 @@ theorem hstmt0_sim (T : String → Prop) (recs : List HRec) (o : String) (N v : 
     rw [hτ] at hval hsafe
     -- safety of the two right-hand sides coincides
     have hacc_safe : safeE τ (tempAccess r.temp o) = true := by
-      simp [tempAccess, safeE, ha, evalIs_sym τ o v hlr.ov, hd, flatIdx_one N v hv]
+      simp [tempAccess, safeE, ha, evalIs_sym τ o v hlr.ov, hd, flatIdx_singleNat N v hv]
     have hsafe_eq : safeE σ (.prod args) = safeE τ (.prod (rem ++ [tempAccess r.temp o])) := by
       rw [safeE_agreeOn hlr.agree (.prod args) hm, safeE_prod, safeE_prod, safeL_perm τ hperm,
         safeL_append, safeL_append, hsafe]
@@ -244,7 +244,7 @@ theorem hstmt0_sim (T : String → Prop) (recs : List HRec) (o : String) (N v : 
     -- and so do their values
     have hacc_val : eval x τ (tempAccess r.temp o) = eval x τ (.prod r.hoisted) := by
       rw [← hval]
-      simp [tempAccess, eval, readArr, ha, evalIs_sym τ o v hlr.ov, hd, flatIdx_one N v hv]
+      simp [tempAccess, eval, readArr, ha, evalIs_sym τ o v hlr.ov, hd, flatIdx_singleNat N v hv]
     have hval_eq : eval x σ (.prod args) = eval x τ (.prod (rem ++ [tempAccess r.temp o])) := by
       rw [eval_agreeOn x hlr.agree (.prod args) hm]
       exact (licm_factor_sound τ args rem r.hoisted _ hperm hacc_val).symm
@@ -478,7 +478,7 @@ theorem fill_loop (temp o : String) (hoisted : List Expr) (N : Nat) (τ0 : St R)
       · simp only [hsafe, if_true] at hb
         have hst : store x (σ.setIV o u) (tempAccess temp o) (fun _ => eval x (σ.setIV o u) (.prod hoisted)) =
             .ok ((σ.setIV o u).setSA temp { a with data := a.data.setIfInBounds u (eval x (σ.setIV o u) (.prod hoisted)) }) := by
-          simp [tempAccess, store, resolve, hsa, evalIs_sym _ o u hiv, hd, flatIdx_one N u huN, hsz, huN, hc]
+          simp [tempAccess, store, resolve, hsa, evalIs_sym _ o u hiv, hd, flatIdx_singleNat N u huN, hsz, huN, hc]
         rw [hst] at hb
         simp at hb
         subst hb
@@ -532,7 +532,7 @@ theorem fill_loop_ok (temp o : String) (hoisted : List Expr) (N : Nat) (τ0 : St
       rw [safeE_prod, ← safeL_agreeOn hag hoisted (fun m hm => hm)]; exact hsafe u huN
     have hst : store x (σ.setIV o u) (tempAccess temp o) (fun _ => eval x (σ.setIV o u) (.prod hoisted)) =
         .ok ((σ.setIV o u).setSA temp { a with data := a.data.setIfInBounds u (eval x (σ.setIV o u) (.prod hoisted)) }) := by
-      simp [tempAccess, store, resolve, hsa, evalIs_sym _ o u hiv, hd, flatIdx_one N u huN, hsz, huN, hc]
+      simp [tempAccess, store, resolve, hsa, evalIs_sym _ o u hiv, hd, flatIdx_singleNat N u huN, hsz, huN, hc]
     have hb : execL x [.assign (tempAccess temp o) (.prod hoisted)] (σ.setIV o u) =
         .ok ((σ.setIV o u).setSA temp { a with data := a.data.setIfInBounds u (eval x (σ.setIV o u) (.prod hoisted)) }) := by
       simp only [execL, exec, hs, if_true, hst]
